@@ -7,6 +7,12 @@ Monitors: postconditions on every get_*_cayley_table, cayley_table_to_left_regul
 and vmon/ref/young.py (three partition recurrences, hook lengths from the definition, corner-removal tableau count).
 Workloads: every constructible table in the stated range, tensor products of irreps as further inputs of the reduction,
 all N for the partition functions, all shapes for the tableaux, symext as the realistic consumer, repo tests (thorough).
+Regimes / less prominent entry points (shard `histories`, function _regimes; symext shard): left-regular forms that are exact only up
+to rounding noise (1e-15..3e-11, not symmetry preserving) or conjugated by a random unitary / orthogonal matrix, hook counts and
+partition counts around 2^53 and 2^63, and relational checks of every other public function of the anchored files that consumes the
+machinery: to_unitary_representation, matrix_block_diagonal, get_character_and_class (row / column orthogonality), hf_Euler_totient,
+hf_is_prime, get_index_cayley_table + group_algebra_product, permutation_to_cycle_notation, check_young_diagram,
+young_tableau_to_young_symmetrizer (e*e = (N!/f) e in the group algebra), symext irrep bases (orthonormal and complete).
 """
 import math
 import os
@@ -29,7 +35,11 @@ RULE = ('group cases = (constructor, parameter): the table is built by numqi, ch
         'parameters; every contract snapshots its array arguments and reports <fn>/mutates-argument. API-form cases (shard api-forms): every '
         'monitored function positionally vs by keyword, defaults passed explicitly, flags as bool / np.bool_ / 0 / 1, sizes as python / numpy '
         'integers, smallest admissible (S2, A2, D3, C2, (Z/3)*, N=1, shape (1,)) and largest quick sizes; exact equality between the forms; '
-        'the parameter order of the shipped API is pinned (SIGNATURES)')
+        'the parameter order of the shipped API is pinned (SIGNATURES). Regime cases (shard histories): (group, noise level / random rotation) '
+        'of the left-regular form, reduced and compared with the reduction of the exact form; hook shapes (k,k) and (2,)*k with counts around '
+        '2^53 / 2^63, N=299, 300 for the partition count. Entry-point cases: (group, random invertible change of basis) for '
+        'to_unitary_representation, direct sums with multiplicities for matrix_block_diagonal, random (batched) group-algebra vectors, all '
+        'permutations of n<=5 for the cycle notation, every standard tableau of every shape N<=4 (N<=5 thorough) for the Young symmetrizer')
 EXHAUSTIVE = {'quick': True, 'thorough': True}
 EXHAUSTIVE_DOMAINS = {
     'quick': ['tables S2..S4, A2..A4, D3..D8, C2..C12, (Z/n)* n=3..24, V4, Q8: all N^2 pairs and N^3 triples each',
@@ -53,7 +63,7 @@ DECIDING = ['numqi.group._symmetric.get_symmetric_group_cayley_table', 'numqi.gr
             'numqi.group._symmetric.get_sym_group_num_irrep', 'numqi.group._symmetric.get_sym_group_young_diagram',
             'numqi.group._symmetric.get_all_young_tableaux', 'numqi.group._symmetric.get_hook_length',
             'reduce/regular-representation-with-known-table', 'reduce/certified-representation-of-known-group',
-            'workload/sum-f2==N!', 'workload/history', 'workload/api-forms']
+            'workload/sum-f2==N!', 'workload/history', 'workload/api-forms', 'workload/regimes', 'workload/entry-points']
 TECHNIQUE = ('postconditions on the real group/partition/tableau functions against integer-exact references (all-triples '
              'associativity, conjugacy classes, independently built S_n/A_n/D_n/C_n/(Z/n)*/V4/Q8 for isomorphism invariants, '
              'three partition recurrences, hook lengths from the definition, corner-removal tableau count)')
@@ -694,10 +704,15 @@ def run(ctx, shard):
                           {'dim': d, 'kext': k, 'got': got, 'expected': exp})
                 if (d, k) == (3, 3):
                     ctx.sample({'op': 'sud-irrep-basis', 'dim': d, 'kext': k, 'blocks': got})
+                _basis_is_unitary(ctx, [y for x in bl for y in x], d**k, 'symext/irrep-basis-not-orthonormal-complete', {'dim': d, 'kext': k})
         with ctx.guard('symext-B3B4'):
             for d in (2, 3):
-                G.symext.get_B3_irrep_basis(d)
-                G.symext.get_B4_irrep_basis(d)
+                ctx.set_case({'op': 'B3-B4-irrep-basis', 'dim': d})
+                _basis_is_unitary(ctx, list(G.symext.get_B3_irrep_basis(d)), d**3, 'symext/B3-basis-not-orthonormal-complete', {'dim': d})
+                if d == 2 or not quick:
+                    _basis_is_unitary(ctx, list(G.symext.get_B4_irrep_basis(d)), d**4, 'symext/B4-basis-not-orthonormal-complete', {'dim': d})
+                else:
+                    G.symext.get_B4_irrep_basis(d)
         with ctx.guard('print_all_young_tableaux'):
             import contextlib
             import io
@@ -706,6 +721,10 @@ def run(ctx, shard):
     elif name == 'histories':
         # call-order sensitive: the A_n-before-S_n order must be the first thing this process does
         _histories(ctx, numqi, G, rng, group_case, shape_case, partition_cases)
+        import time
+        t0 = time.time()
+        _regimes(ctx, numqi, G, rng)
+        ctx.extra['regimes_wall_s'] = round(time.time() - t0, 2)
     elif name == 'api-forms':
         _api_forms(ctx, numqi, G, rng)
     elif name == 'repo-tests':
@@ -1026,6 +1045,286 @@ def _histories(ctx, numqi, G, rng, group_case, shape_case, partition_cases):
     group_case('quaternion', (), qua, irreps=False)
     partition_cases([30, 7, 1], 7)
     shape_case((3, 2, 1))
+
+
+def _basis_is_unitary(ctx, blocks, total, key, desc):
+    """the blocks (arrays of shape (#basis, total)) stacked must be a unitary (total,total) matrix: orthonormal and complete"""
+    ok = all(isinstance(x, np.ndarray) and x.ndim == 2 and x.shape[1] == total for x in blocks) and sum(x.shape[0] for x in blocks) == total
+    err = None
+    if ok:
+        M = np.concatenate(blocks, axis=0).astype(np.complex128)
+        err = float(np.abs(M @ M.conj().T - np.eye(total)).max())
+    ctx.check(ok and err <= 1e-9, key, 'the irrep basis vectors built from the Young tableaux / symmetrizers are not an orthonormal basis of the whole space',
+              {**desc, 'shapes': [list(np.shape(x)) for x in blocks], 'total': total, 'err': err}, point='workload/entry-points')
+
+
+def _regimes(ctx, numqi, G, rng):
+    """lesson 3: (a) numerical regime (regular representations exact only up to rounding noise / in a rotated basis; integer counts
+    around 2^53 and 2^63), (b) one degenerate item in a batch, 1-dimensional blocks, (d) every other public function of the anchored
+    files that consumes tables / representations / tableaux. Torch, gradients and stateful objects do not exist for this property."""
+    import contextlib
+    import io
+    import itertools
+    quick = ctx.tier == 'quick'
+
+    def reg(cond, key, what, wit):
+        ctx.check(cond, key, what, wit, point='workload/regimes')
+
+    def ent(cond, key, what, wit):
+        ctx.check(cond, key, what, wit, point='workload/entry-points')
+
+    def herr(rep, t):
+        return float(np.abs(np.einsum('aij,bjk->abik', rep, rep) - rep[t]).max())
+
+    def uerr(x):
+        return float(np.abs(np.einsum('aji,ajk->aik', x.conj(), x) - np.eye(x.shape[1])).max())
+
+    groups = [('S3', lambda: G.get_symmetric_group_cayley_table(3)), ('Q8', G.get_quaternion_cayley_table), ('D4', lambda: G.get_dihedral_group_cayley_table(4)),
+              ('A4', lambda: G.get_symmetric_group_cayley_table(4, alternating=True)), ('C6', lambda: G.get_cyclic_group_cayley_table(6)),
+              ('(Z/15)*', lambda: G.get_multiplicative_group_cayley_table(15)), ('V4', G.get_klein_four_group_cayley_table), ('A2', lambda: G.get_symmetric_group_cayley_table(2, alternating=True))]
+    if not quick:
+        groups += [('S4', lambda: G.get_symmetric_group_cayley_table(4)), ('D6', lambda: G.get_dihedral_group_cayley_table(6)), ('D5', lambda: G.get_dihedral_group_cayley_table(5))]
+    ctx.workload('random')
+    for nm, build in groups:
+        ctx.set_case({'op': 'regimes', 'group': nm})
+        GHOST['table'] = None
+        with ctx.guard('regimes/table'):
+            t = build()
+        if not (isinstance(t, np.ndarray) and t.ndim == 2 and t.shape[0] == t.shape[1] and rf.table_report(t)['ok']):
+            continue        # reported by the table contract
+        t = np.array(t)
+        N = len(t)
+        L = rf.left_regular(t).astype(np.float64)
+        ncls = len(rf.conjugacy_classes(t))
+        with ctx.guard('regimes/reduce-exact'):
+            ir0 = G.reduce_group_representation(L.astype(np.int64))
+        if not (isinstance(ir0, list) and all(isinstance(x, np.ndarray) and x.ndim == 3 and x.shape[0] == N for x in ir0)):
+            continue
+        d0 = sorted(x.shape[1] for x in ir0)
+
+        def reduced_like_exact(rep, key, what, desc):
+            """reduce a representation equivalent to the regular one: same dimensions, sum d^2 = N, #irreps = #classes; the blocks
+            themselves (unitary, homomorphism of the table, irreducible, inequivalent, complete) are judged by the contract"""
+            GHOST['table'] = t
+            try:
+                ir = G.reduce_group_representation(rep)
+            finally:
+                GHOST['table'] = None
+            d = sorted(x.shape[1] for x in ir) if isinstance(ir, list) and all(isinstance(x, np.ndarray) and x.ndim == 3 for x in ir) else None
+            reg(d == d0 and d is not None and sum(x * x for x in d) == N and len(d) == ncls, key, what, {**desc, 'group': nm, 'dims': d, 'dims_of_exact_form': d0, 'classes': ncls})
+
+        # ---- (a) the left-regular form up to rounding noise (a dense float matrix, noise not symmetry preserving)
+        for eps in (1e-15, 1e-12, 3e-11):
+            for it in range(1 if quick else 4):
+                Ln = L + eps * rng.standard_normal(L.shape)
+                ctx.set_case({'op': 'noisy-regular', 'group': nm, 'noise': eps})
+                ctx.case('regime-noisy-regular', nm, eps, np.round(Ln, 6), it, nontrivial=N >= 2)
+                with ctx.guard('regimes/noisy-regular'):
+                    reduced_like_exact(Ln, 'reduce/noisy-regular-form-reduced-differently', 'the left-regular form plus rounding-level noise is reduced into other '
+                                       'blocks than the exact integer form', {'noise': eps})
+        # ---- (a) the regular representation in a random orthonormal basis (complex unitary / real orthogonal)
+        for kind in ('unitary', 'orthogonal'):
+            for it in range(1 if quick else 4):
+                A = rng.standard_normal((N, N)) + (1j * rng.standard_normal((N, N)) if kind == 'unitary' else 0)
+                U = np.linalg.qr(A)[0]
+                R = U @ L @ U.conj().T
+                ctx.set_case({'op': 'rotated-regular', 'group': nm, 'basis': kind})
+                ctx.case('regime-rotated-regular', nm, kind, it, nontrivial=N >= 2)
+                with ctx.guard('regimes/rotated-regular'):
+                    reduced_like_exact(R, 'reduce/rotated-regular-form-reduced-differently', 'U L U^dagger (random orthonormal basis) is reduced into other blocks than L',
+                                       {'basis': kind})
+        # ---- (d) to_unitary_representation: P L P^-1 with a random well-conditioned P
+        for it in range(1 if quick else 3):
+            P = rng.standard_normal((N, N)) + 3 * np.sqrt(N) * np.eye(N)
+            kappa = float(np.linalg.cond(P))
+            X = P @ L @ np.linalg.inv(P)
+            ctx.set_case({'op': 'to_unitary_representation', 'group': nm, 'cond_P': kappa})
+            ctx.case('entry-to-unitary', nm, it, nontrivial=N >= 2)
+            with ctx.guard('to_unitary_representation'):
+                Xu, matP = G.to_unitary_representation(X, return_matP=True)
+                Xu1 = G.to_unitary_representation(X)
+                ok = isinstance(Xu, np.ndarray) and Xu.shape == X.shape and isinstance(matP, np.ndarray) and matP.shape == (N, N)
+                tol = 1e3 * np.finfo(np.float64).eps * N * kappa**2     # conditioning of the INPUT basis change; 1e-7 is the decision threshold
+                if tol > 1e-7:
+                    ctx.inconclusive('to_unitary_representation: random basis change too ill-conditioned')
+                else:
+                    xc = Xu.astype(np.complex128) if ok else None
+                    ent(ok and uerr(xc) <= max(tol, 1e-10) and herr(xc, t) <= max(tol, 1e-10), 'to_unitary_representation/not-a-unitary-homomorphism',
+                        'to_unitary_representation(P L P^-1) is not a unitary representation of the same table', lambda: {'group': nm, 'cond_P': kappa,
+                        'unitarity_err': uerr(xc) if ok else None, 'homomorphism_err': herr(xc, t) if ok else None, 'tol': tol})
+                    ent(ok and float(np.abs(np.trace(xc, axis1=1, axis2=2) - np.trace(L, axis1=1, axis2=2)).max()) <= max(tol, 1e-10),
+                        'to_unitary_representation/character-changed', 'the character of the unitarised representation differs from the character of the input',
+                        {'group': nm, 'cond_P': kappa})
+                    ent(ok and isinstance(Xu1, np.ndarray) and np.array_equal(Xu1, Xu), 'to_unitary_representation/return_matP-changes-value',
+                        'return_matP=True gives another representation than the default call', {'group': nm})
+                    if ok and uerr(xc) <= 1e-8:
+                        reduced_like_exact(Xu, 'reduce/unitarised-regular-form-reduced-differently', 'the unitarised P L P^-1 is reduced into other blocks than L', {'cond_P': kappa})
+        # ---- (d)/(b) matrix_block_diagonal: direct sum with multiplicities (incl. 1-dimensional blocks) reduces to the same irreps
+        ctx.set_case({'op': 'matrix_block_diagonal', 'group': nm})
+        ctx.case('entry-block-diagonal', nm)
+        with ctx.guard('matrix_block_diagonal'):
+            blocks = list(ir0) + [ir0[-1], ir0[0]]
+            bd = G.matrix_block_diagonal(*blocks)
+            dim = sum(x.shape[1] for x in blocks)
+            ok = isinstance(bd, np.ndarray) and bd.shape == (N, dim, dim)
+            exp = np.zeros((N, dim, dim), dtype=np.complex128)
+            o = 0
+            for x in blocks:
+                exp[:, o:o + x.shape[1], o:o + x.shape[1]] = x
+                o += x.shape[1]
+            ent(ok and np.array_equal(bd, exp), 'matrix_block_diagonal/value', 'direct sum differs from the blocks placed on the diagonal (zeros elsewhere)',
+                {'group': nm, 'dims': [x.shape[1] for x in blocks], 'shape': list(np.shape(bd))})
+            one = G.matrix_block_diagonal(ir0[0])
+            ent(isinstance(one, np.ndarray) and np.array_equal(one, ir0[0]), 'matrix_block_diagonal/single-block', 'direct sum of ONE block is not that block', {'group': nm})
+            if ok:
+                GHOST['table'] = t
+                try:
+                    ir = G.reduce_group_representation(bd)
+                finally:
+                    GHOST['table'] = None
+                d = sorted(x.shape[1] for x in ir) if isinstance(ir, list) else None
+                ent(d == d0, 'reduce/direct-sum-with-multiplicities-reduced-differently', 'the direct sum of all irreps (two of them twice) does not reduce to one copy of each irrep',
+                    {'group': nm, 'dims': d, 'expected': d0})
+        # ---- (d) get_character_and_class: orthogonality relations of the character table (rows weighted by class size, columns)
+        ctx.set_case({'op': 'character-table', 'group': nm})
+        ctx.case('entry-character-table', nm)
+        with ctx.guard('character_and_class'):
+            ch, cl, ct = G.get_character_and_class(ir0)
+            ok = (isinstance(ch, np.ndarray) and ch.shape == (len(ir0), N) and isinstance(ct, np.ndarray) and ct.shape == (len(ir0), len(cl))
+                  and sorted(x for c in cl for x in c) == list(range(N)) and len(cl) == len(ir0))
+            ent(ok, 'character_and_class/shapes-or-classes-not-a-partition', 'character (n_irrep,N), table (n_irrep,n_class) square, classes a partition of the elements',
+                {'group': nm, 'character': list(np.shape(ch)), 'table': list(np.shape(ct)), 'n_class': len(cl)})
+            if ok:
+                sz = np.array([len(c) for c in cl], dtype=np.float64)
+                e_row = float(np.abs((ct * sz) @ ct.conj().T / N - np.eye(len(ir0))).max())
+                e_col = float(np.abs(ct.conj().T @ ct - np.diag(N / sz)).max())
+                ent(e_row <= TOL_CHI and e_col <= TOL_CHI * N, 'character_and_class/table-not-orthogonal',
+                    'character table violates the row (class-size weighted) or column orthogonality relations', {'group': nm, 'row_err': e_row, 'col_err': e_col})
+                ent(all(float(np.abs(ch[:, list(c)] - ct[:, [j]]).max()) <= TOL_CHI for j, c in enumerate(cl)), 'character_and_class/table-column!=character-on-class',
+                    'a column of the character table is not the value of the characters on that class', {'group': nm})
+                with contextlib.redirect_stdout(io.StringIO()):
+                    G.pretty_print_character_table(ct, cl)
+        # ---- (d)/(b) group algebra product through the Cayley table: (x*y)_k = sum_{a*b=k} x_a y_b; batch with ONE zero row
+        for it in range(1 if quick else 4):
+            x = rng.standard_normal(N) + 1j * rng.standard_normal(N)
+            y = rng.standard_normal(N)
+            xb = rng.standard_normal((3, N))
+            xb[1] = 0
+            Lr = rf.left_regular(t)
+            ctx.set_case({'op': 'group_algebra_product', 'group': nm, 'x': x, 'y': y})
+            ctx.case('entry-group-algebra', nm, it, nontrivial=N >= 2)
+            with ctx.guard('group_algebra_product'):
+                idx = G.get_index_cayley_table(t)
+                ent(isinstance(idx, np.ndarray) and idx.shape == (N * N,) and np.array_equal(np.sort(idx), np.arange(N * N))
+                    and np.array_equal(t.reshape(-1)[idx], np.repeat(np.arange(N), N)), 'get_index_cayley_table/value',
+                    'the index is not a permutation of the N^2 table positions grouped by product value', {'group': nm})
+                z = G.group_algebra_product(x, y, t)
+                zi = G.group_algebra_product(x, y, idx, use_index=True)
+                zr = np.einsum('a,akb,b->k', x, Lr, y)
+                ent(isinstance(z, np.ndarray) and z.shape == (N,) and float(np.abs(z - zr).max()) <= 1e-12 * N * (1 + float(np.abs(zr).max())), 'group_algebra_product/value',
+                    '(x*y)_k != sum over a*b=k of x_a y_b (reference: left regular form of the table)', lambda: {'group': nm, 'got': z, 'expected': zr})
+                ent(isinstance(zi, np.ndarray) and isinstance(z, np.ndarray) and np.array_equal(zi, z), 'group_algebra_product/use_index-differs',
+                    'use_index=True with the precomputed index gives another product', {'group': nm})
+                zb = G.group_algebra_product(xb, y, t)
+                rows = [G.group_algebra_product(r, y, t) for r in xb]
+                ent(isinstance(zb, np.ndarray) and zb.shape == (3, N) and all(isinstance(r, np.ndarray) and r.shape == (N,) for r in rows)
+                    and float(np.abs(zb - np.stack(rows)).max()) <= 1e-12 * N * (1 + float(np.abs(zb).max())) and not zb[1].any(),
+                    'group_algebra_product/batched!=single', 'a batch with one zero row: rows differ from the single products / the zero row is not zero', {'group': nm})
+                e = np.eye(N)
+                a, b = int(rng.integers(N)), int(rng.integers(N))
+                ent(np.array_equal(np.asarray(G.group_algebra_product(e[a], e[b], t)), e[t[a, b]]), 'group_algebra_product/basis-elements', 'e_a * e_b != e_{a*b}',
+                    {'group': nm, 'a': a, 'b': b})
+
+    # ---- (d) totient / primality helpers (the stated order of (Z/n)^* is the totient)
+    ctx.workload('exhaustive')
+    ctx.set_case({'op': 'totient-prime'})
+    ctx.case('entry-totient-prime')
+    with ctx.guard('hf_Euler_totient'):
+        bad = [n for n in range(1, 257) if G.hf_Euler_totient(n) != rf.euler_phi(n)]
+        ent(not bad, 'hf_Euler_totient/value', 'totient differs from the count of residues coprime to n', {'first_bad': bad[:5]})
+        bad = [n for n in range(3, 61) if len(G.get_multiplicative_group_cayley_table(n)) != G.hf_Euler_totient(n)]
+        ent(not bad, 'table/multiplicative/order!=hf_Euler_totient', 'the order of the (Z/n)^* table is not the library\'s own totient', {'first_bad': bad[:5]})
+    with ctx.guard('hf_is_prime'):
+        primes = {n for n in range(2, 2000) if all(n % q for q in range(2, int(n**0.5) + 1))}
+        bad = [n for n in list(range(-3, 2000)) + [2**31 - 1, 2**31 + 11, (2**16 + 1)**2, 65521 * 65537] if bool(G.hf_is_prime(n)) != ((n in primes) if n < 2000 else n in (2**31 - 1, 2**31 + 11))]
+        ent(not bad, 'hf_is_prime/value', 'primality answer differs from trial division (range -3..1999, squares of primes, 2^31-1)', {'first_bad': bad[:5]})
+    # ---- (d) permutation_to_cycle_notation (the parity filter of the alternating table): all permutations of n<=5
+    with ctx.guard('permutation_to_cycle_notation'):
+        for n in range(1, 6):
+            for perm in itertools.permutations(range(n)):
+                for arg in ((perm,) if n < 5 else (perm, np.array(perm))[:1 + (perm[0] == 4)]):
+                    cyc = G.permutation_to_cycle_notation(arg)
+                    ok = (isinstance(cyc, tuple) and all(isinstance(c, tuple) and len(c) >= 1 for c in cyc) and sorted(x for c in cyc for x in c) == list(range(n))
+                          and all(perm[c[i]] == c[(i + 1) % len(c)] for c in cyc for i in range(len(c))))
+                    if not ok:
+                        ctx.set_case({'op': 'cycle-notation', 'perm': list(perm)})
+                    ent(ok, 'permutation_to_cycle_notation/not-the-cycles', 'the cycles are not a partition of 0..n-1 with perm[c_i] = c_{i+1}',
+                        {'perm': list(perm), 'got': repr(cyc)[:200]})
+    # ---- (d) check_young_diagram: accepts every partition, rejects non-partitions (its only purpose)
+    ctx.set_case({'op': 'check_young_diagram'})
+    with ctx.guard('check_young_diagram'):
+        for N in range(1, 9):
+            for sh in ry.partitions(N):
+                for arg in (sh, list(sh), np.array(sh)):
+                    G.check_young_diagram(arg)       # raising = violation through the guard
+        ctx.hit('workload/entry-points')
+    for bad_shape in [(1, 2), (2, 0), (3, 1, 2), (0,), (2, -1), ()]:
+        try:
+            G.check_young_diagram(bad_shape)
+            rejected = False
+        except AssertionError:
+            rejected = True
+        ent(rejected, 'check_young_diagram/accepts-non-partition', 'a sequence that is not a partition with positive parts passes the check', {'shape': list(bad_shape)})
+
+    # ---- (a) integer regime: hook counts around 2^53 / 2^63 (contract: exact big-int reference), partition counts around 2^53
+    ctx.workload('corner')
+    for k in (28, 29, 30, 31, 34, 35, 36, 40):
+        for sh in ((k, k), (2,) * k, (k, k - 1), (k, k, 1)):
+            ctx.set_case({'op': 'hook-large', 'young': list(sh)})
+            ctx.case('regime-hook', sh)
+            with ctx.guard('hook'):
+                h = G.get_hook_length(*sh)
+                G.get_young_diagram_transpose(sh)
+                reg(isinstance(h, int) and h == ry.syt_count_hook(sh), 'hook_length/value-near-2^53-2^63', 'hook-length count of a two-row / two-column shape '
+                    '(Catalan-like, 2^50..2^72) is not the exact integer', {'young': list(sh), 'got': repr(h)[:60], 'bits': ry.syt_count_hook(sh).bit_length()})
+    for N in (299, 300):      # p(299) < 2^53 < p(300); judged by the contract against the reference recurrences
+        ctx.set_case({'op': 'partitions-near-2^53', 'N': N})
+        ctx.case('regime-partitions', N)
+        with ctx.guard('partitions'):
+            v = G.get_sym_group_num_irrep(N)
+            reg(isinstance(v, int) and v == ry.partition_count(N) == ry.partition_count_euler(N), 'num_irrep/value-near-2^53', 'p(N) around 2^53 is not the exact integer',
+                {'N': N, 'got': repr(v)[:40]})
+
+    # ---- (d) young_tableau_to_young_symmetrizer: |e| = prod row! * prod col!, distinct permutations, signs +-1, e*e = (N!/f) e
+    ctx.workload('exhaustive')
+    for N in range(1, 5 if quick else 6):
+        for sh in ry.partitions(N):
+            f = ry.syt_count_hook(sh)
+            with ctx.quiet():
+                T = G.get_all_young_tableaux(sh)
+            if not (isinstance(T, np.ndarray) and T.ndim == 3 and len(T) == f):
+                continue   # reported by the tableaux contract elsewhere
+            size = math.prod(math.factorial(r) for r in sh) * math.prod(math.factorial(c) for c in ry.conjugate(sh))
+            for tab in (T if N <= 4 else T[[0, len(T) - 1]]):
+                ctx.set_case({'op': 'young-symmetrizer', 'young': list(sh), 'tableau': tab})
+                ctx.case('entry-symmetrizer', sh, tab, nontrivial=N >= 2)
+                with ctx.guard('young_symmetrizer'):
+                    r = G.young_tableau_to_young_symmetrizer(sh, tab)
+                    ok = isinstance(r, tuple) and len(r) == 2 and isinstance(r[0], np.ndarray) and r[0].shape == (size, N) and np.shape(r[1]) == (size,)
+                    ops, sg = (r[0].tolist(), np.asarray(r[1]).tolist()) if ok else ([], [])
+                    ok = ok and all(sorted(p) == list(range(N)) for p in ops) and set(sg) <= {1, -1} and len({tuple(p) for p in ops}) == size
+                    ent(ok, 'young_symmetrizer/not-(prod row! col!)-distinct-signed-permutations', 'the symmetrizer must list prod(row!) prod(col!) distinct permutations of 0..N-1 with signs +-1',
+                        {'young': list(sh), 'expected_terms': size, 'shape': list(np.shape(r[0])) if isinstance(r, tuple) and len(r) == 2 else None})
+                    if ok and size <= 300:
+                        e = {tuple(p): s for p, s in zip(ops, sg)}
+                        e2 = {}
+                        for p, a in e.items():
+                            for q, b in e.items():
+                                k = tuple(p[i] for i in q)
+                                e2[k] = e2.get(k, 0) + a * b
+                        c = math.factorial(N) // f
+                        ent({k: v for k, v in e2.items() if v} == {k: c * v for k, v in e.items()}, 'young_symmetrizer/not-essentially-idempotent',
+                            'e*e != (N!/f) e in the group algebra for the Young symmetrizer e of a standard tableau', {'young': list(sh), 'tableau': tab, 'N!/f': c})
 
 
 def _run_repo_tests(ctx, files):
